@@ -5,6 +5,7 @@ import GeosModel.Model.Num.Parse
 import GeosModel.Model.WKT.Write
 import GeosModel.Model.WKT.Read
 import GeosModel.Model.WKT.Spec
+import GeosModel.Model.WKT.Cxx
 import GeosModel.Model.GeoJSON.Roundtrip
 /-! Driver for C10 (`drv_c10 <stream>`):
   fmt        `<bits16> <precision -1..> <trim 0|1>`      → `<printDouble string | -> <writer string> <bits of strtod(writer string)>`
@@ -23,7 +24,7 @@ def fmt (line : String) : String :=
     | some bits, some prec, some tr =>
       let trim := tr != 0
       let s1 := if trim && prec ≥ 0 then String.ofList (Num.writeTrimmedNumber bits.toNat prec.toNat) else "-"
-      let cfg : Cfg := { trim := trim, precision := prec }
+      let cfg : Cfg := { trim := trim, precision := clampPrecision prec }
       let s2l := Num.writeNumber bits.toNat trim (decimalPlaces cfg)
       let rb := match Num.strtod s2l with
         | some r => hex64n r
@@ -35,7 +36,7 @@ def fmt (line : String) : String :=
 def parseCfg : List String → Option (Cfg × List String)
   | t :: p :: d :: o :: r => do
     let t ← t.toNat?; let p ← p.toInt?; let d ← d.toNat?; let o ← o.toNat?
-    some ({ trim := t != 0, precision := p, outDim := d, old3D := o != 0 }, r)
+    some ({ trim := t != 0, precision := clampPrecision p, outDim := d, old3D := o != 0 }, r)
   | _ => none
 
 def wktWrite (line : String) : String :=
